@@ -9,6 +9,7 @@ import (
 	"strings"
 
 	"github.com/DDP-Projekt/Kompilierer/src/ast"
+	"github.com/DDP-Projekt/Kompilierer/src/ast/annotators"
 	"github.com/DDP-Projekt/Kompilierer/src/token"
 )
 
@@ -209,6 +210,8 @@ func shapeOf(e ast.Expression) string {
 		return fmt.Sprintf("(un %s %s)", strings.ReplaceAll(e.Operator.String(), " ", "_"), shapeOf(e.Rhs))
 	case *ast.BinaryExpr:
 		return fmt.Sprintf("(bin %s %s %s)", strings.ReplaceAll(e.Operator.String(), " ", "_"), shapeOf(e.Lhs), shapeOf(e.Rhs))
+	case *ast.TernaryExpr:
+		return fmt.Sprintf("(ter %s %s %s %s)", strings.ReplaceAll(e.Operator.String(), " ", "_"), shapeOf(e.Lhs), shapeOf(e.Mid), shapeOf(e.Rhs))
 	case *ast.BadExpr:
 		return "(bad)"
 	default:
@@ -225,6 +228,44 @@ func (v *shapeVisitor) VisitAssignStmt(s *ast.AssignStmt) ast.VisitResult {
 func init() {
 	dumpers["shape"] = func(m *ast.Module, dir string) []string {
 		v := &shapeVisitor{}
+		ast.VisitModule(m, v)
+		return v.out
+	}
+}
+
+// the flags of the constant-parameter annotator, one line per function declaration in source order: name and one digit per
+// parameter (1 = still constant, 0 = not, - = the annotator attached nothing for it)
+type constFlagVisitor struct {
+	mod *ast.Module
+	out []string
+}
+
+func (*constFlagVisitor) Visitor() {}
+func (v *constFlagVisitor) VisitFuncDecl(d *ast.FuncDecl) ast.VisitResult {
+	line := d.Name() + " "
+	att, ok := v.mod.Ast.GetMetadataByKind(d, annotators.ConstFuncParamMetaKind)
+	for _, p := range d.Parameters {
+		if !ok {
+			line += "-"
+			continue
+		}
+		c, has := att.(annotators.ConstFuncParamMeta).IsConst[p.Name.Literal]
+		switch {
+		case !has:
+			line += "-"
+		case c:
+			line += "1"
+		default:
+			line += "0"
+		}
+	}
+	v.out = append(v.out, line)
+	return ast.VisitRecurse
+}
+
+func init() {
+	dumpers["constflags"] = func(m *ast.Module, dir string) []string {
+		v := &constFlagVisitor{mod: m}
 		ast.VisitModule(m, v)
 		return v.out
 	}
